@@ -12,13 +12,19 @@
      alternate-vocabulary operations"                          -> coherent_preserved
        (`coherent` is the sentence above, clause by clause; `run` interprets any sequence of
         constructions, copies with overrides/removals, subsettings, lazy reads, alternate-vocabulary
-        reads, clones and round trips through data frames and Arrow tables over a pool of lists)
+        reads, clones and round trips through data frames and Arrow tables -- default columns or a
+        caller-supplied schema in any order -- over a pool of lists)
    * "Subsetting by mask, index array or slice ... keep each item's identifier, number and field
      values together"                                          -> rows_stay_together
    * "copying with fields replaced or removed"                 -> copy_keeps_rows
    * "and never change the source list"                        -> source_unchanged
    * "fields of the wrong length or dimensionality are rejected at construction"
                                                                -> bad_shapes_rejected
+   * "conversion among ... Arrow ... representations keep each item's identifier, number and field
+     values together", for a caller-supplied column schema in any order -> columns_by_name,
+     columns_round_trip
+       (the round trips through data frames / Arrow tables, with or without a schema, are operations of
+        `run`, so coherent_preserved and source_unchanged cover them)
    * conversion among NumPy, PyTorch and Arrow views of one array is the identity on the abstract
      values of the model; that the four real formats agree entry-wise is checked on every list of
      every correspondence case (harness), not proved.
@@ -30,7 +36,7 @@
             attached later to a list built from both without one agrees with them; a supplied rank
             column is 1..n. *)
 From Coq Require Import ZArith List Bool.
-From LK Require Import Model.C16_itemlist Proofs.C16_base Proofs.C16_wf Proofs.C16_ops Proofs.C16_rows Proofs.C16_copy.
+From LK Require Import Model.C16_itemlist Proofs.C16_base Proofs.C16_wf Proofs.C16_ops Proofs.C16_rows Proofs.C16_copy Proofs.C16_cols.
 Import ListNotations.
 Open Scope Z_scope.
 
@@ -113,6 +119,55 @@ Theorem bad_shapes_rejected : forall env src a l,
   (forall z, c_nums a = Some z -> z_shape z = [len l] \/ (len l = 0%nat /\ exists r, z_shape z = 0%nat :: r)).
 Proof. exact bad_shapes_rejected_l. Qed.
 Print Assumptions bad_shapes_rejected.
+
+(* to_arrow(columns=cols) for ANY caller-supplied list of column names in ANY order (`arrow_cols`
+   fills the columns one by one in the caller's order, as the code does): reading the columns only
+   fills caches of the list, and the table holds under each NAME what that name denotes -- item_id:
+   the identifiers, item_num: the numbers (missing="error"), rank: the ranks (nulls = None for an
+   unordered list), any other name f: the values of field f (nulls = absent when the list has no
+   such field) -- and nothing under a name that was not requested.  The statement does not mention
+   the order of `cols`, so values can never land under another column's name. *)
+Theorem columns_by_name : forall env l cols l' t,
+  env_ok env -> wf env l -> arrow_cols env l cols t_none = (l', Ok t) ->
+  observe env l' = observe env l /\
+  (In CId cols -> exists i, get_ids env l = Ok i /\ t_ids t = Some i) /\ (~ In CId cols -> t_ids t = None) /\
+  (In CNum cols -> exists n, get_nums env l MError = Ok n /\ t_nums t = Some n) /\ (~ In CNum cols -> t_nums t = None) /\
+  (In (CName F_RANK) cols -> t_rank t = get_ranks l) /\ (~ In (CName F_RANK) cols -> t_rank t = None) /\
+  (forall f, f <> F_RANK ->
+     (In (CName f) cols -> lookup f (t_fields t) = get_field l f) /\ (~ In (CName f) cols -> lookup f (t_fields t) = None)).
+Proof. exact columns_by_name_l. Qed.
+Print Assumptions columns_by_name.
+
+(* the round trip ItemList.from_arrow(l.to_arrow(columns=cols), vocabulary=...) of a non-empty list, for ANY
+   schema in ANY order: same length; identifiers / numbers come back if their column was requested; the field
+   named f comes back exactly when the column f was requested (and the list has it); the result is ordered
+   exactly when the list is ordered and the rank column was requested.  (`has_name f cols` = some column of
+   `cols` is named f; see has_name_in: it is `In (CName f) cols`.) *)
+Theorem columns_round_trip : forall env l cols kv l' x,
+  env_ok env -> wf env l -> (0 < len l)%nat -> via_arrow_cols env l cols kv = (l', Ok x) ->
+  len x = len l /\ vocab x = (if kv then vocab l else None) /\
+  ordered x = (has_name F_RANK cols && ordered l) /\
+  (In CId cols -> get_ids env x = get_ids env l) /\
+  (In CNum cols -> get_nums env x MNegative = get_nums env l MError) /\
+  (forall f, f <> F_RANK -> get_field x f = if has_name f cols then get_field l f else None).
+Proof. exact columns_round_trip_l. Qed.
+Print Assumptions columns_round_trip.
+
+(* non-vacuity of columns_by_name: an ordered list with an unknown item, scores and a rating, converted
+   with the schema (score, rank, item_id, rating, foo) *)
+Example c16_columns_example :
+  let env := [[10; 11; 12; 13]] in
+  let l := {| len := 3%nat; ids := Some [11; 99; 13]; nums := None; vocab := Some 0%nat; ordered := true; ranks := None;
+              fields := [(0%nat, [VZ 4; VZ 8; VNaN]); (2%nat, [VZ 1; VZ 2; VZ 3])] |} in
+  let cols := [CName 0%nat; CName 1%nat; CId; CName 2%nat; CName 3%nat] in
+  env_ok env /\ wf env l /\
+  exists l' t, arrow_cols env l cols t_none = (l', Ok t) /\
+    t_ids t = Some [11; 99; 13] /\ t_nums t = None /\ t_rank t = Some [1; 2; 3] /\
+    lookup 0%nat (t_fields t) = Some [VZ 4; VZ 8; VNaN] /\ lookup 2%nat (t_fields t) = Some [VZ 1; VZ 2; VZ 3] /\
+    lookup 3%nat (t_fields t) = None /\
+    exists l2 x, via_arrow_cols env l cols true = (l2, Ok x) /\ (0 < len l)%nat /\ ordered x = true /\
+      get_ids env x = Ok [11; 99; 13] /\ get_field x 2%nat = Some [VZ 1; VZ 2; VZ 3] /\ get_field x 3%nat = None.
+Proof. exact c16_columns_example_l. Qed.
 
 (* every list reachable by the interpreter satisfies the invariant the other theorems assume *)
 Theorem reachable_wf : forall env ops, env_ok env -> ops_ok env [] ops -> Forall (wf env) (run env [] ops).
